@@ -405,7 +405,8 @@ class HostImpl:
         self.sig2leaf = {}
         self.leaf_prim = {}
         self.unparseable = set()
-        for i, s in list(enumerate(host['leaves'], 100)) + list(enumerate([x[0] for x in host_symbols(host)], 200)):
+        # the oracle for a symbol is its DEFINITION (the value of a reference is the value of what the symbol was defined as)
+        for i, s in list(enumerate(host['leaves'], 100)) + list(enumerate([x[2] for x in host_symbols(host)], 200)):
             try:
                 p = self.primitive(self.parse_alone(s))
             except Exception:
@@ -983,7 +984,8 @@ class E2e:
         hi, simple, pre, post, _, _ = entry
         host = HOSTS[hi]
         tab = {}
-        for i, s in list(enumerate(host['leaves'], 100)) + list(enumerate([x[0] for x in host_symbols(host)], 200)):
+        # (for a symbol: its definition stands in the instruction - the value of a reference is the value of the definition)
+        for i, s in list(enumerate(host['leaves'], 100)) + list(enumerate([x[2] for x in host_symbols(host)], 200)):
             v = self.run(hi, pre + s + (post % E2E_FILE_TEXT if '%s' in post else post))
             if v in ('VPass', 'VFail'):
                 tab[i] = (v == 'VPass')
